@@ -1,9 +1,9 @@
 """C04 — exhaustive search is never beaten by a function it enumerated (MDL optimality)."""
-import math, os
+import json, math, os, time
 import numpy as np
 import common, extract, libgen, fitlib, oracle_mdl
 
-LEAN_MODULE = "ESRVerif.Props.C04"
+LEAN_MODULE = ["ESRVerif.Props.C04", "ESRVerif.Props.C04b"]
 LEVEL = "other"
 LEVEL_TEXT = ("Partial proof (machine-checked composition). Proved in Lean over the C06 model of combine_DL, for tables of any size and any rank count: "
               "every row with a finite description length reports exactly the sum of its three reported terms; the first row of the final table is not "
@@ -11,17 +11,33 @@ LEVEL_TEXT = ("Partial proof (machine-checked composition). Proved in Lean over 
               "its independently computed one (hypothesis hFaithful = optimiser reach C10 + code length C07 + exact transfer C05; C01/C03 give the line and "
               "the match), no enumerated tree beats the top row. NOT proved: hFaithful, which is numerical; it is sampled on every run by full pipeline runs "
               "(generate, fit, Fisher, match, combine) on data with planted truths, against the closed-form description length of every tree of the "
-              "library that is linear in its parameters, together with the reproducibility of every row of final_<n>.dat.")
-TECHNIQUE = "Lean 4 composition of the C06 theorems + end-to-end pipeline runs against an independent closed-form description length"
+              "library that is linear in its parameters, together with the reproducibility of every row of final_<n>.dat. "
+              "Props/C04b adds the row-reproducibility chain over the stage models: stage1_row_reproducible (C10 params_reproduce_nll under MinimiserSpec, every arm "
+              "(parameter-count class, log_opt) of the regenerated optimiser table), fisher_row_reproducible (C07 nll_at_reported), match_row_reproducible (C05 matchRow_nll, "
+              "transfer exactness as a named hypothesis), final_row_reproducible (C06 row_is_min: a final row copies a variant row) and their composition "
+              "every_final_row_reproducible_partial; stage1_best_backtransform_needed shows that reporting the best value with the sign bookkeeping of another iteration breaks it. "
+              "The end-to-end runs cover the fitting stage's options (log_opt False/True, start box, tmax) and multimodal fits (a periodic hook basis and osc_maths with a planted "
+              "frequency): every row of negloglike_comp, codelen_comp_deriv, codelen_matches_comp and final_ is recomputed with evaluators that use no ESR code (string and tree), "
+              "and the top row is compared with the planted tree's description length computed from the data alone.")
+TECHNIQUE = ("Lean 4 composition of the C06 theorems and of the C10/C07/C05/C06 row-reproducibility theorems + end-to-end pipeline runs (option space, unimodal and "
+             "multimodal fits, run concurrently) against an independent closed-form / bracketed description length and independent row evaluators")
 RULE = ("one case = one (data set, tree) pair: the top row's DL against the tree's closed-form DL, plus every final-table row's reproducibility; non-trivial = "
-        "the tree is linear in its parameters after a one-to-one reparametrisation of each (a0*x, x/a0, x + 1/a0, ...) and not within 5% of a snapping threshold; distinct by (planted truth, noise, seed, tree line)")
+        "the tree is linear in its parameters after a one-to-one reparametrisation of each (a0*x, x/a0, x + 1/a0, ...) and not within 5% of a snapping threshold, or it is the planted "
+        "one-parameter tree of an option run (sin(a0*x), a0*x) with an interior optimum next to the planted value; distinct by (planted truth, noise, seed, fit options, tree line)")
 EXPLANATION = LEVEL_TEXT
 TRUSTED = ["harness/oracle_mdl.py (closed-form weighted least squares, exact Hessian, snapping rule, tree code length)",
-           "the pipeline is run with the library of the staged copy and a Gaussian likelihood on synthetic data"]
-ASSUMPTIONS = ["hFaithful (numerical): sampled, tolerance 5e-3 in description length", "only trees linear after a per-parameter reparametrisation have an independent closed form here; a weak parameter that cannot be zeroed is coded with ln 2 (ESR's convention, the larger of the candidate values, so the oracle never demands more than the code promises)"]
+           "the pipeline is run with the library of the staged copy and a Gaussian likelihood on synthetic data",
+           "harness/oracle_tree.py (prefix-tree evaluator) and the numpy string evaluator of harness/props/c04.py (pow(a,b) = |a|**b); scipy minimize_scalar for the planted tree"]
+ASSUMPTIONS = ["hFaithful (numerical): sampled, tolerance 5e-3 in description length",
+               "row reproducibility is judged up to the 8 significant digits with which -logL and the parameters are stored (tolerance = 2e-5 relative + twice the effect of a last-digit change of any reported parameter); only rows of the FINAL table are violations, rows of the earlier stage files localise them",
+               "multimodal trees: optimality is judged only for the planted tree (optimum bracketed at the planted value, reliably found by both optimiser modes on the chosen data); a multi-start that misses the global optimum of another multimodal tree is the named numerical gap (MinimiserSpec / FitSpec), not judged",
+               "C04b: MinimiserSpec, transfer exactness at the likelihood level and the stage-to-stage read links are hypotheses (RowChain); option runs use tmax=60 so that the outcome does not depend on machine load", "only trees linear after a per-parameter reparametrisation have an independent closed form here; a weak parameter that cannot be zeroed is coded with ln 2 (ESR's convention, the larger of the candidate values, so the oracle never demands more than the code promises)"]
 # tables whose committed version may stand in as a hand-written model when the translator cannot read the source;
 # value = the correspondence that then ties it to the code (common.prove / common.decide)
-FALLBACK = {'Rank': 'real combine_DL.main on random tables vs the Lean ranking model (the C06 correspondence, run here when the table cannot be regenerated)'}
+FALLBACK = {'Rank': 'real combine_DL.main on random tables vs the Lean ranking model (the C06 correspondence, run here when the table cannot be regenerated)',
+            'Match': 'every row of codelen_matches_comp<n>.dat of every end-to-end run recomputed with the independent evaluators (the match-stage statement of Props/C04b observed on the real code)',
+            'Codelen': 'every row of codelen_comp<n>_deriv.dat of every end-to-end run recomputed with the independent evaluators (the Fisher-stage statement of Props/C04b observed on the real code)',
+            'Optim': 'every row of negloglike_comp<n>.dat of every end-to-end run, log_opt False and True, recomputed with the independent evaluators (the fitting-stage statement of Props/C04b observed on the real code)'}
 MODELLED = []
 
 TOL = 5e-3
@@ -47,8 +63,8 @@ def _nll_at(lik, fcn, params):
     return lik.negloglike(list(params[:k]), fn), k
 
 
-def _one_dataset(ctx, lib, comp, truth, theta, noise, seed, P=1, exact_offset=False):
-    import esr.fitting.likelihood as L
+def _prepare(ctx, lib, comp, truth, theta, noise, seed, P=1, exact_offset=False, kw=None):
+    """Data set of one end-to-end run (main thread: touches ctx.extra) -> job dict for `_run_job` / `_analyse`."""
     rs = np.random.default_rng(seed)
     x = GRID.copy()
     s = np.full(30, noise)
@@ -60,11 +76,44 @@ def _one_dataset(ctx, lib, comp, truth, theta, noise, seed, P=1, exact_offset=Fa
     pat = ctx.extra.setdefault("planted_sign_patterns", {})                  # input distribution: sign of every planted parameter
     sk = "%s [%s]" % (truth, ",".join("+" if t > 0 else "-" for t in theta))
     pat[sk] = pat.get(sk, 0) + 1
-    tag = "c04_%d_%d" % (comp, seed)
+    tag = "c04_%d_%d%s" % (comp, seed, "_lo" if (kw or {}).get("fit", {}).get("log_opt") else "")
     dd = os.path.join(ctx.tmp, tag); os.makedirs(dd, exist_ok=True)
     fitlib.write_data(os.path.join(dd, "d.txt"), x, y, s)
-    r = fitlib.run_pipeline(ctx, lib["copy"], lib["name"], comp, dd, "d.txt", tag, P=P, seed=seed, timeout=1800)
     rp = dict(kind="dataset", basis=lib["name"], comp=comp, truth=truth, theta=list(theta), noise=noise, seed=seed, P=P, exact_offset=exact_offset)
+    if kw:
+        rp["kw"] = kw
+    return dict(kind="dataset", lib=lib, comp=comp, truth=truth, theta=list(theta), noise=noise, seed=seed, P=P, kw=kw, x=x, y=y, s=s, tag=tag, dd=dd, rp=rp)
+
+
+def _run_job(ctx, job):
+    """The pipeline run of one job (worker thread: no ctx state is touched; every run has its own data directory and only
+    READS the shared library copy — the default options never write into the library directory)."""
+    lib = job["lib"]
+    job["r"] = fitlib.run_pipeline(ctx, lib["copy"], lib["name"], job["comp"], job["dd"], "d.txt", job["tag"], P=job["P"], seed=job["seed"],
+                                   timeout=1800, kw=job.get("kw"))
+    return job
+
+
+def _run_all(ctx, jobs, workers=None):
+    """All pipeline runs of a plan, concurrently (each is a group of OS processes; this thread pool only waits for them)."""
+    import concurrent.futures as cf
+    workers = workers or max(1, min(len(jobs), int(os.environ.get("ESRV_C04_PAR", "8"))))
+    t0 = time.time()
+    with cf.ThreadPoolExecutor(max_workers=workers) as ex:
+        list(ex.map(lambda j: _run_job(ctx, j), jobs))
+    ctx.extra["pipeline_runs"] = ctx.extra.get("pipeline_runs", 0) + len(jobs)
+    ctx.extra["pipeline_wall_s"] = round(ctx.extra.get("pipeline_wall_s", 0) + time.time() - t0, 1)
+
+
+def _one_dataset(ctx, lib, comp, truth, theta, noise, seed, P=1, exact_offset=False, kw=None):
+    job = _prepare(ctx, lib, comp, truth, theta, noise, seed, P=P, exact_offset=exact_offset, kw=kw)
+    _analyse(ctx, _run_job(ctx, job))
+
+
+def _analyse(ctx, job):
+    import esr.fitting.likelihood as L
+    lib, comp, truth, theta, noise, seed, rp, r = job["lib"], job["comp"], job["truth"], job["theta"], job["noise"], job["seed"], job["rp"], job["r"]
+    x, y, s = job["x"], job["y"], job["s"]
     if not r["ok"]:
         ctx.fail("pipeline-incomplete", "pipeline at n=%d on data planted from %s does not complete: %s %s" % (comp, truth, r["res"]["error"], fitlib.traceback_tail(r)), rp)
         return
@@ -86,6 +135,9 @@ def _one_dataset(ctx, lib, comp, truth, theta, noise, seed, P=1, exact_offset=Fa
             nrep += 1
             if math.isfinite(v) and abs(v - row["nll"]) > 2e-5 * max(1.0, abs(v)):
                 ctx.fail("row-not-reproducible", "final row %d: %s at the reported parameters %s has NLL %.9g, reported %.9g" % (row["rank"], row["fcn"], row["params"][:kk], v, row["nll"]), rp)
+    # (1b) every row of every stage file, with the evaluators that use no ESR code
+    bad = _stage_rows(ctx, job, SHIPPED_BASES.get(lib["name"]))
+    _report_rows(ctx, job, bad, "%s n=%d, data %s theta=%s noise=%g seed=%d, P=%d" % (lib["name"], comp, truth, theta, noise, seed, job["P"]))
     # (2) the top row against the closed form of every linear tree of the library
     top = rows[0]["DL"]
     funs = libgen.read_funs(libgen.libfile(lib["dir"], comp, "all_equations"))
@@ -119,6 +171,285 @@ def _one_dataset(ctx, lib, comp, truth, theta, noise, seed, P=1, exact_offset=Fa
                     wall_s=round(r["wall_s"], 1)), cap=6)
     ctx.extra["linear_trees"] = ctx.extra.get("linear_trees", 0) + nlin
     ctx.extra["rows_reproduced"] = ctx.extra.get("rows_reproduced", 0) + nrep
+
+
+
+# --------------------------------------------------------------------------------------------------------------------
+# Row reproducibility of EVERY stage file, with evaluators that use no ESR code and no sympy
+# --------------------------------------------------------------------------------------------------------------------
+SHIPPED_BASES = {"core_maths": [["x", "a"], ["inv"], ["+", "*", "-", "/", "pow"]],
+                 "osc_maths": [["x", "a"], ["inv", "sin"], ["+", "*", "-", "/", "pow"]]}
+SIN_BASIS = [["x", "a"], ["sin"], ["*", "+"]]          # the periodic hook basis: 15 unique functions at complexity 4, 9 of them multimodal
+PARAM_DIGITS = 1e-7                                    # parameters travel between the stages as text with 8 significant digits (%.7e)
+
+
+def _str_value(fcn, x, params):
+    """The function string evaluated with plain numpy (ESR's conventions: pow(a,b) = |a|**b, x > 0)."""
+    env = {"sin": np.sin, "cos": np.cos, "tan": np.tan, "exp": np.exp, "log": lambda a: np.log(np.abs(a)), "sqrt": lambda a: np.sqrt(np.abs(a)),
+           "Abs": np.abs, "pow": lambda a, b: np.power(np.abs(a), b), "inv": lambda a: 1.0 / a, "square": lambda a: a * a, "cube": lambda a: a * a * a,
+           "zoo": np.inf, "oo": np.inf, "nan": np.nan, "pi": np.pi, "E": np.e, "x": x}
+    for i, p in enumerate(params):
+        env["a%d" % i] = float(p)
+    with np.errstate(all="ignore"):
+        return np.broadcast_to(np.asarray(eval(fcn, {"__builtins__": {}}, env), dtype=float), x.shape)
+
+
+def _tree_value(labels, basis, x, params):
+    """The label list (prefix form) evaluated point by point by harness/oracle_tree.py."""
+    import oracle_tree
+    t = oracle_tree.parse(labels, [set(b) for b in basis])
+    out = np.empty(x.shape)
+    env = {"a%d" % i: float(p) for i, p in enumerate(params)}
+    for j, xv in enumerate(x):
+        env["x"] = float(xv)
+        try:
+            out[j] = oracle_tree.evaluate(t, env)
+        except (ArithmeticError, ValueError, OverflowError):
+            out[j] = float("nan")
+    return out
+
+
+def _repro(value, params, k, reported, y, s):
+    """Is `reported` the Gaussian NLL of the function at `params`?  -> None (not decidable: a non-finite side) or
+    (ok, recomputed, tolerance).  Tolerance = the 8 digits of the reported value and what a change of the last stored digit of any
+    reported parameter does to the likelihood (a parameter of a rapidly oscillating function is not determined better than that)."""
+    def nll(q):
+        try:
+            f = value(q)
+        except Exception:
+            return float("nan")
+        return oracle_mdl.gauss_nll(y, f, s) if np.all(np.isfinite(f)) else float("nan")
+    if not math.isfinite(reported):
+        return None
+    v = nll(params)
+    if not math.isfinite(v):
+        return None
+    slack = 0.0
+    for j in range(min(k, len(params))):
+        if params[j] == 0:
+            continue
+        for eps in (-PARAM_DIGITS, PARAM_DIGITS):
+            q = list(params); q[j] = params[j] * (1.0 + eps)
+            w = nll(q)
+            if math.isfinite(w):
+                slack = max(slack, abs(w - v))
+    tol = 2e-5 * max(1.0, abs(v)) + 2.0 * slack
+    return abs(v - reported) <= tol, v, tol
+
+
+def _load(path):
+    a = np.loadtxt(path)
+    return np.atleast_2d(a)
+
+
+def _stage_rows(ctx, job, basis):
+    """Every row of negloglike_comp<n>.dat, codelen_comp<n>_deriv.dat, codelen_matches_comp<n>.dat and final_<n>.dat: the Gaussian
+    likelihood of the row's function (string AND, where the string is a line of all_equations, its tree) at the row's parameters
+    against the row's -logL; rows reported inf/nan are skipped.  Returns the rows that are not reproducible, per stage.
+    Only FINAL rows are the property's own statement; the earlier files localise where a row went wrong."""
+    lib, comp, r = job["lib"], job["comp"], job["r"]
+    x, y, s = job["x"], job["y"], job["s"]
+    uniq = libgen.read_funs(libgen.libfile(lib["dir"], comp, "unique_equations"))
+    allf = libgen.read_funs(libgen.libfile(lib["dir"], comp, "all_equations"))
+    trees = libgen.read_trees(libgen.libfile(lib["dir"], comp, "trees"))
+    tree_of = {}
+    for f, t in zip(allf, trees):
+        tree_of.setdefault(f, t)
+    out = r["out_dir"]
+    bad = {"fit": [], "fisher": [], "match": [], "final": []}
+    counts = ctx.extra.setdefault("stage_rows_checked", {"fit": 0, "fisher": 0, "match": 0, "final": 0, "tree_and_string": 0, "evaluators_differ": 0})
+
+    def check(stage, idx, fcn, params, reported, labels=None):
+        k = (max(oracle_mdl.params_of(fcn)) + 1) if oracle_mdl.params_of(fcn) else 0
+        try:
+            a = _repro(lambda q: _str_value(fcn, x, q), params, k, reported, y, s)
+        except Exception:
+            a = None
+        b = None
+        labels = labels if labels is not None else tree_of.get(fcn)
+        if labels and basis:
+            try:
+                b = _repro(lambda q: _tree_value(labels, basis, x, q), params, k, reported, y, s)
+            except Exception:
+                b = None
+        verdicts = [v for v in (a, b) if v is not None]
+        if not verdicts:
+            return
+        counts[stage] += 1
+        if a is not None and b is not None:
+            counts["tree_and_string"] += 1
+            if a[0] != b[0]:
+                counts["evaluators_differ"] += 1          # string and tree denote different functions: C02's subject, not judged here
+                return
+        if not verdicts[0][0]:
+            bad[stage].append(dict(stage=stage, row=idx, fcn=fcn, params=[float(p) for p in params[:max(k, 1)]], reported=float(reported),
+                                   recomputed=float(verdicts[0][1]), tol=float(verdicts[0][2])))
+
+    try:
+        t1 = _load(os.path.join(out, "negloglike_comp%d.dat" % comp))
+        for i, f in enumerate(uniq[:len(t1)]):
+            check("fit", i, f, list(t1[i, 1:]), float(t1[i, 0]))
+        t2 = _load(os.path.join(out, "codelen_comp%d_deriv.dat" % comp))
+        for i, f in enumerate(uniq[:len(t2)]):
+            if math.isfinite(t2[i, 0]):
+                check("fisher", i, f, list(t2[i, 2:]), float(t2[i, 1]))
+        t3 = _load(os.path.join(out, "codelen_matches_comp%d.dat" % comp))
+        for i, f in enumerate(allf[:len(t3)]):
+            if math.isfinite(t3[i, 1]):
+                check("match", i, f, list(t3[i, 3:]), float(t3[i, 0]), labels=trees[i] if i < len(trees) else None)
+    except (OSError, ValueError, IndexError) as e:
+        ctx.notes.append("stage files of %s not readable: %r" % (job["tag"], e))
+    for row in _final_rows(os.path.join(out, "final_%d.dat" % comp)):
+        if math.isfinite(row["DL"]):
+            check("final", row["rank"], row["fcn"], row["params"], row["nll"])
+    return bad
+
+
+def _report_rows(ctx, job, bad, what_run):
+    """A final row that is not reproducible is the violation; the earliest stage file in which the same function's row is already
+    not reproducible is named with it.  Earlier-stage rows that never reach the final table are only counted."""
+    rp = job["rp"]
+    early = {}
+    for st in ("fit", "fisher", "match"):
+        for b in bad[st]:
+            early.setdefault(b["fcn"], b)
+    first = ([b for st in ("fit", "fisher", "match") for b in bad[st]] or [None])[0]       # earliest stage file with such a row
+    for b in bad["final"]:
+        src = first or early.get(b["fcn"])
+        loc = ""
+        if src:
+            loc = "; earliest stage file with a row that is not reproducible: %s stage, row %d (%s at %s: reported %.9g, recomputed %.9g); such rows per stage: fit %d, Fisher %d, match %d, final %d" % (
+                src["stage"], src["row"], src["fcn"], src["params"], src["reported"], src["recomputed"], len(bad["fit"]), len(bad["fisher"]), len(bad["match"]), len(bad["final"]))
+        ctx.fail("row-not-reproducible", "%s: final row %d: %s at the reported parameters %s has -logL %.9g (independent evaluator), reported %.9g (tolerance %.3g)%s" % (
+            what_run, b["row"], b["fcn"], b["params"], b["recomputed"], b["reported"], b["tol"], loc), dict(rp, row=b))
+    if not bad["final"]:
+        n = sum(len(bad[st]) for st in ("fit", "fisher", "match"))
+        if n:
+            ctx.extra["stage_rows_flagged_without_final_row"] = ctx.extra.get("stage_rows_flagged_without_final_row", 0) + n
+            ctx.extra.setdefault("stage_rows_flagged_examples", [])
+            if len(ctx.extra["stage_rows_flagged_examples"]) < 6:
+                ctx.extra["stage_rows_flagged_examples"].append(dict(run=what_run, row=(bad["fit"] + bad["fisher"] + bad["match"])[0]))
+
+
+# --------------------------------------------------------------------------------------------------------------------
+# Option space x multimodal fits: log_opt in {False, True}, a periodic basis, a planted frequency
+# --------------------------------------------------------------------------------------------------------------------
+OPT_X = np.linspace(0.3, 3.0, 16)
+OPT_TMAX = 60          # per-function time limit of the fitting stage in these runs: with the default 5 s a loaded machine cuts the multi-start
+                       # of a two-parameter function short (TimeoutException handler), which would make the outcome depend on the load
+
+
+def _prepare_opt(ctx, lib, basis, comp, truth, theta, noise, seed, P, kw):
+    """truth in {"sin(a0*x)", "a0*x"}: y = truth(theta) + noise on OPT_X."""
+    rs = np.random.default_rng(seed)
+    x = OPT_X.copy()
+    s = np.full(x.shape, noise)
+    y = _str_value(truth, x, theta) + rs.normal(0, noise, x.shape)
+    kw = dict(kw or {})
+    kw["fit"] = dict(kw.get("fit", {}), tmax=OPT_TMAX)
+    fit = kw["fit"]
+    tag = "c04o_%s_%d_%d_%s" % (lib["name"][-6:], comp, seed, "".join("%s%s" % (k[0], str(v)[0]) for k, v in sorted(fit.items())))
+    dd = os.path.join(ctx.tmp, tag); os.makedirs(dd, exist_ok=True)
+    fitlib.write_data(os.path.join(dd, "d.txt"), x, y, s)
+    rp = dict(kind="options", basis=lib["name"], basis_ops=basis, comp=comp, truth=truth, theta=list(theta), noise=noise, seed=seed, P=P, kw=kw or {}, npts=len(x))
+    pat = ctx.extra.setdefault("option_runs", {})
+    ok = "%s n=%d %s" % (lib["name"], comp, json.dumps(fit, sort_keys=True))
+    pat[ok] = pat.get(ok, 0) + 1
+    return dict(kind="options", lib=lib, basis=basis, comp=comp, truth=truth, theta=list(theta), noise=noise, seed=seed, P=P, kw=kw, x=x, y=y, s=s, tag=tag, dd=dd, rp=rp)
+
+
+def _planted_dl(truth, labels, theta, x, y, s):
+    """Description length of a one-parameter planted tree from the data alone: own bracketed minimiser started at the planted value
+    (the global optimum when the noise is small against the signal), own second difference, k ln n from the labels.
+    None when the fit is not well-posed (no interior minimum next to the planted value, curvature not positive, within 5% of the
+    snapping threshold)."""
+    from scipy.optimize import minimize_scalar
+    a0 = float(theta[0])
+
+    def f(a):
+        v = _str_value(truth, x, [a])
+        return oracle_mdl.gauss_nll(y, v, s) if np.all(np.isfinite(v)) else float("inf")
+    w = 0.05 * abs(a0)
+    if not (f(a0) < f(a0 - w) and f(a0) < f(a0 + w)):
+        return None
+    res = minimize_scalar(f, bracket=(a0 - w, a0, a0 + w), tol=1e-13)
+    a, nll = float(res.x), float(res.fun)
+    if not (abs(a - a0) < w and math.isfinite(nll)):
+        return None
+    h = 1e-4 * abs(a)
+    F = (f(a + h) - 2.0 * nll + f(a - h)) / (h * h)
+    if not (F > 0):
+        return None
+    nsteps = abs(a) * math.sqrt(F / 12.0)
+    if abs(math.log(nsteps)) < 0.05 or nsteps < 1:
+        return None
+    codelen = -0.5 * math.log(3.0) + 0.5 * math.log(F) + math.log(abs(a))
+    return dict(a=a, nll=nll, codelen=codelen, aifeyn=oracle_mdl.aifeyn(labels), dl=nll + codelen + oracle_mdl.aifeyn(labels), F=F)
+
+
+def _linear_trees(ctx, job, rows, key):
+    """the top row against the closed form of every tree of the library that is linear after a per-parameter reparametrisation"""
+    lib, comp, rp = job["lib"], job["comp"], job["rp"]
+    x, y, s = job["x"], job["y"], job["s"]
+    top = rows[0]["DL"]
+    funs = libgen.read_funs(libgen.libfile(lib["dir"], comp, "all_equations"))
+    trees = libgen.read_trees(libgen.libfile(lib["dir"], comp, "trees"))
+    cache = ctx.extra.setdefault("_models", {})
+    nlin = 0
+    for i, (f, labels) in enumerate(zip(funs, trees)):
+        if f not in cache:
+            cache[f] = oracle_mdl.separable_model(f)
+        m = cache[f]
+        if m is None:
+            continue
+        cf = oracle_mdl.closed_form_separable(x, y, s, m)
+        if cf is None or cf["margin"] < 0.05 or not math.isfinite(cf["nll"]):
+            continue
+        nlin += 1
+        dl = cf["nll"] + cf["codelen"] + oracle_mdl.aifeyn(labels)
+        ctx.case(key + (i,), nontrivial=True)
+        if not top <= dl + TOL + 1e-7 * abs(dl):
+            ctx.fail("top-beaten", "top-ranked DL %.8g (%s) exceeds the independently computed DL %.8g of tree %r (line %d, %s)" % (top, rows[0]["fcn"], dl, labels, i, f), dict(rp, line=i))
+    return nlin
+
+
+def _analyse_opt(ctx, job):
+    lib, comp, truth, theta, rp, r = job["lib"], job["comp"], job["truth"], job["theta"], job["rp"], job["r"]
+    x, y, s = job["x"], job["y"], job["s"]
+    fit = (job.get("kw") or {}).get("fit", {})
+    what_run = "%s n=%d fit options %s, data %s theta=%s noise=%g seed=%d, P=%d" % (lib["name"], comp, json.dumps(fit, sort_keys=True), truth, [round(t, 6) for t in theta], job["noise"], job["seed"], job["P"])
+    if not r["ok"]:
+        ctx.fail("pipeline-incomplete", "%s: the pipeline does not complete: %s %s" % (what_run, r["res"]["error"], fitlib.traceback_tail(r)), rp)
+        return
+    rows = _final_rows(os.path.join(r["out_dir"], "final_%d.dat" % comp))
+    if not rows:
+        ctx.fail("empty-final-table", "%s: final_%d.dat is empty" % (what_run, comp), rp); return
+    for row in rows:
+        if math.isfinite(row["DL"]):
+            ssum = row["nll"] + row["codelen"] + row["aifeyn"]
+            if abs(ssum - row["DL"]) > 1e-5 * max(1.0, abs(row["DL"])):
+                ctx.fail("row-not-sum", "%s: final row %d (%s): DL %.10g is not nll+codelen+aifeyn = %.10g" % (what_run, row["rank"], row["fcn"], row["DL"], ssum), rp)
+    bad = _stage_rows(ctx, job, job["basis"])
+    _report_rows(ctx, job, bad, what_run)
+    # the planted tree, from the data alone
+    top = rows[0]["DL"]
+    funs = libgen.read_funs(libgen.libfile(lib["dir"], comp, "all_equations"))
+    trees = libgen.read_trees(libgen.libfile(lib["dir"], comp, "trees"))
+    key = ("opt", lib["name"], comp, truth, job["seed"], json.dumps(fit, sort_keys=True))
+    planted = None
+    if truth in funs:
+        line = funs.index(truth)
+        planted = _planted_dl(truth, trees[line], theta, x, y, s)
+        if planted is not None:
+            ctx.case(key + ("planted",), nontrivial=True)
+            ctx.extra["planted_multimodal_judged"] = ctx.extra.get("planted_multimodal_judged", 0) + (1 if "sin" in truth else 0)
+            if not top <= planted["dl"] + TOL + 1e-7 * abs(planted["dl"]):
+                ctx.fail("top-beaten", "%s: top-ranked DL %.8g (%s) exceeds the independently computed DL %.8g of the planted tree %r (line %d, %s; a0*=%.7g, -logL %.7g, codelen %.6g, tree term %.6g)" % (
+                    what_run, top, rows[0]["fcn"], planted["dl"], trees[line], line, truth, planted["a"], planted["nll"], planted["codelen"], planted["aifeyn"]), dict(rp, line=line))
+    nlin = _linear_trees(ctx, job, rows, key)
+    ctx.sample(dict(run=what_run, top=rows[0]["fcn"], top_DL=top, planted_DL=(planted or {}).get("dl"), linear_trees=nlin,
+                    not_reproducible={k: len(v) for k, v in bad.items()}, wall_s=round(r["wall_s"], 1)), cap=12)
+    ctx.extra["linear_trees"] = ctx.extra.get("linear_trees", 0) + nlin
 
 
 GRID = np.linspace(0.4, 3.2, 30)        # the abscissae of every data set of this check
@@ -170,6 +501,43 @@ def _signed_scale_plan(ctx, lib, comps, per_comp, signs):
     return plan
 
 
+def _option_plan(ctx, core, deep):
+    """End-to-end runs over the fitting stage's OPTIONS and over multimodal fits.
+    * the periodic hook basis [x, a | sin | *, +] at complexity 4 (15 unique functions; sin(a0*x), sin(a0 + x), x + sin(a0), x*sin(a0),
+      sin(sin(sin(a0))), sin(a0), a1*sin(a0), a1 + sin(a0) have optima in several sign branches) and the shipped osc_maths at complexity 4,
+      data planted from the library's own sin(a0*x) with a frequency whose optimum both modes find reliably (|a0| in [2.1, 2.9], 16 points
+      on [0.3, 3], noise 0.05: the basin of the planted optimum is > 10% of the start box in either mode and the loop runs all 100 starts);
+    * log_opt in {False, True} on the SAME data; a narrower start box (pmin, pmax) and other Niter/Nconv in one run each;
+    * a negative scale a0*x under log_opt (the '-' branch must win every start) at complexity 3 of both bases."""
+    jobs = []
+    g = libgen.generate(ctx, "verif_c04sin", [1, 2, 3, 4], P=1, basis=SIN_BASIS, copy="c04_lib_sin", timeout=900)
+    if not g["ok"]:
+        ctx.disagree("library", "generation of the periodic hook basis failed: %s" % g["res"]["error"]); return jobs
+    sinlib = dict(copy=g["copy"], dir=g["dir"], name="verif_c04sin")
+    go = libgen.generate(ctx, "osc_maths", [1, 2, 3, 4], P=1, copy="c04_lib_osc", timeout=900)
+    osclib = dict(copy=go["copy"], dir=go["dir"], name="osc_maths") if go["ok"] else None
+    if osclib is None:
+        ctx.disagree("library", "generation of osc_maths failed: %s" % go["res"]["error"])
+    base = ctx.seed * 100 + 700
+    a = ctx.rng.uniform(2.1, 2.9)
+    for q, lo in enumerate([True, False]):
+        jobs.append(_prepare_opt(ctx, sinlib, SIN_BASIS, 4, "sin(a0*x)", [a], 0.05, base + 1, 1, dict(fit=dict(log_opt=lo))))
+    a2 = ctx.rng.uniform(2.1, 2.9)
+    jobs.append(_prepare_opt(ctx, sinlib, SIN_BASIS, 4, "sin(a0*x)", [a2], 0.05, base + 2, 3, dict(fit=dict(log_opt=True, pmin=-1, pmax=1))))
+    jobs.append(_prepare_opt(ctx, sinlib, SIN_BASIS, 3, "a0*x", [-ctx.rng.uniform(0.5, 3.0)], 0.05, base + 3, 1, dict(fit=dict(log_opt=True))))
+    jobs.append(_prepare_opt(ctx, core, SHIPPED_BASES["core_maths"], 3, "a0*x", [-ctx.rng.uniform(0.5, 3.0)], 0.05, base + 4, 1, dict(fit=dict(log_opt=True))))
+    if osclib:
+        jobs.append(_prepare_opt(ctx, osclib, SHIPPED_BASES["osc_maths"], 4, "sin(a0*x)", [ctx.rng.uniform(2.1, 2.9)], 0.05, base + 5, 3, dict(fit=dict(log_opt=True))))
+    if deep:
+        for q in range(3):
+            jobs.append(_prepare_opt(ctx, sinlib, SIN_BASIS, 4, "sin(a0*x)", [ctx.rng.uniform(2.1, 2.9)], ctx.rng.choice([0.05, 0.1]), base + 10 + q, 1 + 2 * (q % 2),
+                                     dict(fit=dict(log_opt=True, Niter_params=[30, 30], Nconv_params=[5, 5]) if q == 0 else dict(log_opt=bool(q % 2)))))
+        if osclib:
+            jobs.append(_prepare_opt(ctx, osclib, SHIPPED_BASES["osc_maths"], 4, "sin(a0*x)", [ctx.rng.uniform(2.1, 2.9)], 0.05, base + 20, 3, dict(fit=dict(log_opt=False))))
+        jobs.append(_prepare_opt(ctx, core, SHIPPED_BASES["core_maths"], 4, "a0*x", [-ctx.rng.uniform(0.5, 3.0)], 0.05, base + 21, 3, dict(fit=dict(log_opt=True))))
+    return jobs
+
+
 def run(ctx):
     deep = not ctx.quick
     nmax = 5 if deep else 4
@@ -193,9 +561,14 @@ def run(ctx):
         # every sign pattern of a two-parameter truth (the all-positive one is in the fixed list above)
         for q, (s0, s1) in enumerate([(-1, 1), (1, -1), (-1, -1)]):
             plan.append((5, "a0*x + a1", [s0 * ctx.rng.uniform(0.5, 2.0), s1 * ctx.rng.uniform(0.5, 3.0)], ctx.rng.choice([0.05, 0.3]), ctx.seed * 100 + 60 + q, 1 if q % 2 else 3))
+    jobs = []
     for item in plan:
         comp, t, th, noise, seed, P = item[:6]
-        _one_dataset(ctx, lib, comp, t, th, noise, seed, P=P, exact_offset=(len(item) > 6))
+        jobs.append(_prepare(ctx, lib, comp, t, th, noise, seed, P=P, exact_offset=(len(item) > 6)))
+    jobs += _option_plan(ctx, lib, deep)
+    _run_all(ctx, jobs)
+    for job in jobs:
+        (_analyse if job["kind"] == "dataset" else _analyse_opt)(ctx, job)
     ctx.extra.pop("_models", None)
     ctx.extra["corr_obligations"] = 1
     ctx.extra["corr_discharged"] = int(not ctx.failures)
@@ -211,8 +584,14 @@ def run(ctx):
 def replay(ctx, data):
     rp = data["replay"]
     c2 = common.Ctx("C04", "quick", 0); c2.tmp = ctx.tmp; c2.stage = ctx.stage
-    g = libgen.generate(c2, rp["basis"], list(range(1, rp["comp"] + 1)), P=1, copy="c04r")
-    _one_dataset(c2, dict(copy=g["copy"], dir=g["dir"], name=rp["basis"]), rp["comp"], rp["truth"], rp["theta"], rp["noise"], rp["seed"], P=rp.get("P", 1), exact_offset=rp.get("exact_offset", False))
+    hook = rp["basis"].startswith("verif_")
+    g = libgen.generate(c2, rp["basis"], list(range(1, rp["comp"] + 1)), P=1, copy="c04r", basis=rp.get("basis_ops") if hook else None)
+    lib = dict(copy=g["copy"], dir=g["dir"], name=rp["basis"])
+    if rp.get("kind") == "options":
+        job = _prepare_opt(c2, lib, rp.get("basis_ops"), rp["comp"], rp["truth"], rp["theta"], rp["noise"], rp["seed"], rp.get("P", 1), rp.get("kw"))
+        _analyse_opt(c2, _run_job(c2, job))
+    else:
+        _one_dataset(c2, lib, rp["comp"], rp["truth"], rp["theta"], rp["noise"], rp["seed"], P=rp.get("P", 1), exact_offset=rp.get("exact_offset", False), kw=rp.get("kw"))
     for f in c2.failures[:5]:
         print(f["what"])
     return not c2.failures
